@@ -1,5 +1,6 @@
 import Cfdm.Driver.Parse
 import Cfdm.Model.Mask
+import Cfdm.Model.MaskDType
 /-
 Line protocol for C07.
 
@@ -9,6 +10,16 @@ Line protocol for C07.
             <var> = dt;data;fv;mv;vmin;vmax;vr;sf;ao;uns
             →  recv=<state> res=<state>       (or raised:ValueError)
             <state> = fielddata|con/bounds|con/_
+
+  C07.dtype vars=<v>|<v>… unpack=1     <v> = type:scale_factor:add_offset:unsigned
+            type = i1…f8; attribute = `-` absent, `t` text, `f4n` float32 neutral (1.0 / 0.0),
+            `f4s` float32 not neutral; unsigned = 0/1
+            →  adv/got/ref|…   advertised (patched reader), delivered, reference data type
+
+  C07.data  arr=[1,--,nan] dfill=[5] fills=N|T|F|X|[1,nan] vmin=[2] vmax=- vr=[1,8] inplace=0
+            `Data.apply_masking` called directly: arr may hold masked elements (`--`); dfill = the
+            data's own fill value; fills: None / True / False / not a sequence / a sequence of scalars
+            →  recv=[…] res=[…]   (or raised:ValueError / raised:TypeError)
 
 Attribute: `-` absent, `t` text, `[v,…]` numeric vector; value: integer or `nan`.
 -/
@@ -112,10 +123,76 @@ def runApply (kv : KV) : String :=
     | .error e => "raised:" ++ e
     | .ok (recv, res) => s!"recv={showState recv} res={showState res}"
 
+/-! ### data types -/
+open Cfdm.MaskDType in
+def parseNT (s : String) : Option NT := NT.all.find? (fun t => t.name == s)
+
+open Cfdm.MaskDType in
+def parseAttrT (s : String) : Option AttrT :=
+  if s == "-" then some .absent
+  else if s == "t" then some .text
+  else if s.length == 3 then
+    match parseNT (s.take 2).toString, (s.drop 2).toString with
+    | some t, "n" => some (.num t true)
+    | some t, "s" => some (.num t false)
+    | _, _ => none
+  else none
+
+open Cfdm.MaskDType in
+def parseDVar (s : String) : Option (NT × Pack) :=
+  match s.splitOn ":" with
+  | [t, sf, ao, u] => do
+    let t ← parseNT t
+    let sf ← parseAttrT sf
+    let ao ← parseAttrT ao
+    let u ← parseBool u
+    some (t, { sf := sf, ao := ao, uns := u })
+  | _ => none
+
+open Cfdm.MaskDType in
+def runDType (kv : KV) : String :=
+  match (do
+    let vs ← ((← kv.get? "vars").splitOn "|").mapM parseDVar
+    let u ← parseBool (← kv.get? "unpack")
+    some (vs, u)) with
+  | none => "bad-op"
+  | some (vs, u) =>
+    String.intercalate "|" (vs.map (fun (t, p) =>
+      s!"{(advertisedT p u t).name}/{(deliveredT p u t).name}/{(refT p u t).name}"))
+
+def parseOV (s : String) : Option (Option V) :=
+  if s == "--" then some none else (parseV s).map some
+
+def parseFillArg (s : String) : Option FillArg :=
+  match s with
+  | "N" => some .none_
+  | "T" => some (.flag true)
+  | "F" => some (.flag false)
+  | "X" => some .notSeq
+  | _ => (parseVList s).map (fun l => .seq (l.map (fun v => AttrVal.vals v [])))
+
+def runData (kv : KV) : String :=
+  match (do
+    let arr ← parseListWith parseOV ',' (← kv.get? "arr")
+    let dfill ← parseAttr (← kv.get? "dfill")
+    let fills ← parseFillArg (← kv.get? "fills")
+    let vmin ← parseAttr (← kv.get? "vmin")
+    let vmax ← parseAttr (← kv.get? "vmax")
+    let vr ← parseAttr (← kv.get? "vr")
+    let ip ← parseBool (← kv.get? "inplace")
+    some (arr, dfill, fills, vmin, vmax, vr, ip)) with
+  | none => "bad-op"
+  | some (arr, dfill, fills, vmin, vmax, vr, ip) =>
+    match dataApplyMasking dfill fills vmin vmax vr arr with
+    | .error e => "raised:" ++ e
+    | .ok res => s!"recv={showElems (if ip then res else arr)} res={showElems res}"
+
 def run (sub : String) (kv : KV) : String :=
   match sub with
   | "read" => runRead kv
+  | "data" => runData kv
   | "apply" => runApply kv
+  | "dtype" => runDType kv
   | _ => "bad-op"
 
 end Cfdm.Driver.C07
